@@ -1154,6 +1154,15 @@ func (broker *Broker) startTrack(wg *sync.WaitGroup) {
 		}
 		for _, binned := range payload.GetParts() {
 			key := binned.GetName()
+			if cached := broker.Conf.Cache.Get(key); cached != nil &&
+				cached.GetHash() != "" &&
+				cached.GetHash() != binned.GetFileHash() {
+				// A payload carrying a superseded version of this file
+				// completed late (requests overlap).  The cached version
+				// is tracked, polled and confirmed on its own; counting
+				// these parts would reset or replace its record.
+				continue
+			}
 			pFile, ok := progress[key]
 			if !ok {
 				progress[key] = &progressFile{
@@ -1164,13 +1173,6 @@ func (broker *Broker) startTrack(wg *sync.WaitGroup) {
 				}
 				pFile = progress[key]
 			} else if pFile.hash != binned.GetFileHash() {
-				if cached := broker.Conf.Cache.Get(key); cached != nil &&
-					cached.GetHash() == pFile.hash {
-					// A payload carrying a superseded version of this file
-					// completed late (requests overlap); what is being
-					// tracked is the current version, so don't start over
-					continue
-				}
 				pFile.sent = 0
 				pFile.size = binned.GetSendSize()
 				pFile.started = payload.GetStarted()
